@@ -235,25 +235,11 @@ def body(chk, db, cfgname):
     ge = db.fn(HH + "::computeGroundEnergy", nparams=0)
     with r4.guard(HH + "::computeGroundEnergy", ge.loc(), cfgname):
         gectx = Ctx(ge, db)
-        asg = [j for j, n in ge.walk(ge.body) if n["k"] == "bin" and n["op"] == "=" and gectx.key(n["l"]) == fld(HH + "::GroundEnergy")]
-        good = False
-        why = "GroundEnergy is not assigned from a minimum"
-        if len(asg) == 1:
-            rk = gectx.key(ge.nodes[asg[0]]["r"], inline=False)
-            if rk[0] == "mcall" and rk[1].endswith("::maxCoeff"):
-                why = "the ground energy is the MAXIMUM of the blocks' lowest eigenvalues"
-            if rk[0] == "mcall" and rk[1].endswith("::minCoeff") and rk[2][0] == "var":
-                vec = rk[2]
-                for m in gectx.mut.get(vec[1], []):
-                    mn = ge.nodes[m]
-                    if mn["k"] == "bin" and mn["op"] == "=":
-                        shp = full_index_loop(ge, gectx, m, [("mcall", "std::vector::size", fld(HH + "::parts")), ("mcall", SC + "NumberOfBlocks", fld(HH + "::S"))])
-                        rr = gectx.key(mn["r"])
-                        if shp is None:
-                            why = "not every block contributes its lowest eigenvalue (loop over the parts is not full-range)"
-                        elif rr[0] == "mcall" and rr[1] == HP + "::getMinimumEigenvalue" and key_contains(rr, lambda y: y[:2] == shp["var"][:2]) and \
-                                key_contains(gectx.key(mn["l"], inline=False), lambda y: y[:2] == shp["var"][:2]):
-                            good = True
+        from checks.lehmann import ground_energy_verdict
+        gv, why = ground_energy_verdict(db)
+        if gv == "unknown":
+            raise AnalysisBroken("Hamiltonian::computeGroundEnergy: " + why)
+        good = gv == "ok"
         mev = db.fn(HP + "::getMinimumEigenvalue", nparams=0)
         mctx = Ctx(mev, db)
         mins = [j for j, n in mev.walk(mev.body) if n["k"] == "return" and mctx.key(n["sub"]) == ("mcall", "Eigen::DenseBase::minCoeff", Ev)]
